@@ -162,6 +162,14 @@ def parse(xs, wrap=False):
     return etree.fromstring("<doc><pre><x/></pre>%s<post/><!--after--></doc>" % xs)[1]
 
 
+BRACE_PAIRS = [
+    ('<r><a>t</a></r>', '<r><a style="{color: red}" w="100%">t</a></r>'),
+    ('<r><a x="{x}" y="%s">t</a></r>', '<r><a x2="{x}" y2="%s">t</a></r>'),
+    ('<r><a x="{">t</a><b/></r>', '<r><b/><a y="{" z="}}">t {0} %(k)s \\n</a></r>'),
+    ('<r><a>{0}</a></r>', '<r><a k="{0}{1}">{name}</a><c>%d</c></r>'),
+]
+
+
 def oracle(Ls, Rs, opts, wrap=False):
     """The property on the implementation.  None = holds; "skip:..." = the differ
     itself raises (C01's business); otherwise the reason it fails."""
@@ -628,6 +636,12 @@ def main(run):
             why = oracle(Ls, Rs, {}, False)
             if why and not why.startswith("skip:"):
                 viols.append({"what": why, "replay": dict(d, finding_key="two-prefixes-one-uri-on-left-root")})
+    # attribute values / texts with braces, percent signs and backslashes (anything that is pasted into a template)
+    for Ls, Rs in BRACE_PAIRS:
+        for o_ in ({}, {"fast_match": True}):
+            why = oracle(Ls, Rs, o_, False) or oracle_configs(Ls, Rs, o_, False)
+            if why and not why.startswith("skip:"):
+                viols.append({"what": why, "replay": {"left": Ls, "right": Rs, "wrap": False, "opts": o_, "finding_key": None}})
     # deeply nested documents (oracle only)
     for Ls, Rs in differ_props.deep_pairs():
         try:
